@@ -55,6 +55,10 @@ type geoDB struct {
 	// candidates are addresses whose whole /24 (or /56) lies inside one
 	// record of every database (File caches locations per /24 and /56).
 	candidates []netip.Addr
+
+	// nearPairs are pairs of usable addresses of different countries that
+	// are close to each other: in one /48 (IPv6) or one /16 (IPv4).
+	nearPairs [][2]netip.Addr
 	asns       []uint32
 	countries  []string
 }
@@ -122,6 +126,11 @@ func loadGeoDB() (db *geoDB) {
 		}
 
 		groups := map[string][]netip.Addr{}
+		type located struct {
+			ip   netip.Addr
+			ctry string
+		}
+		near := map[netip.Prefix][]located{}
 		asns := map[uint32]bool{}
 		countries := map[string]bool{}
 		for _, r := range []*maxminddb.Reader{db.asn, db.city, db.country} {
@@ -149,6 +158,12 @@ func loadGeoDB() (db *geoDB) {
 				}
 				if rec.country != "" {
 					countries[rec.country] = true
+					bits := 16
+					if ip.Is6() {
+						bits = 48
+					}
+					wide, _ := ip.Prefix(bits)
+					near[wide] = append(near[wide], located{ip, rec.country})
 				}
 				fam := "4"
 				if ip.Is6() {
@@ -163,6 +178,21 @@ func loadGeoDB() (db *geoDB) {
 					if !dup {
 						groups[k] = append(groups[k], ip)
 					}
+				}
+			}
+		}
+		var wides []netip.Prefix
+		for w := range near {
+			wides = append(wides, w)
+		}
+		sort.Slice(wides, func(i, j int) bool { return wides[i].String() < wides[j].String() })
+		for _, w := range wides {
+			ls := near[w]
+			for _, o := range ls[1:] {
+				if o.ctry != ls[0].ctry && o.ip != ls[0].ip {
+					db.nearPairs = append(db.nearPairs, [2]netip.Addr{ls[0].ip, o.ip})
+
+					break
 				}
 			}
 		}
@@ -317,6 +347,17 @@ func runGeoFile(s *kernel.Sim) {
 			seen[c] = true
 			clients = append(clients, c)
 		}
+	}
+	if len(db.nearPairs) > 0 && t.Chance(1, 3, "near-neighbours") {
+		// Two clients of different countries whose addresses are close.
+		for _, c := range db.nearPairs[t.Choose(len(db.nearPairs), "near-pair")] {
+			if !seen[c] {
+				seen[c] = true
+				clients = append(clients, c)
+			}
+		}
+		s.Probe("clients-of-two-countries-close-together")
+		s.Logf("geofile: %d pairs of close addresses in different countries: %v", len(db.nearPairs), db.nearPairs)
 	}
 	s.Logf("geofile: city=%v top=%d country-top=%v cache=%d clients=%v", city, top.Len(), ctryTop, count, clients)
 
